@@ -203,11 +203,16 @@ fn run_line(st: &mut ReplState, line: &str) {
         st.rollback();
         OK
     } else {
-        let res = st.xs.compile(&line).and_then(|_| st.xs.run());
-        if res.is_err() {
-            // the rest of a failed line is abandoned, the next line must not resume it
-            st.xs.abort_run();
-        }
+        let res = st.xs.compile(&line).and_then(|_| {
+            let res = st.xs.run();
+            if res.is_err() {
+                // the rest of a line that failed while running is abandoned, the next line must not
+                // resume it (a line that was rejected has been forgotten already and abandons nothing:
+                // a program that was stepped back with /rnext stays where it is)
+                st.xs.abort_run();
+            }
+            res
+        });
         if st.trial.is_some() {
             st.update_xstate();
         }
